@@ -495,6 +495,134 @@ def _expand_ctx(h: Helper, call: ast.Call, recv, w: ast.With) -> Optional[List[a
     return out
 
 
+def specialise_callbacks(trees: Dict[str, ast.Module]) -> List[str]:
+    """A module-level function H that takes a callback parameter it only ever CALLS, all of whose call sites - in one function F -
+    pass the same nested procedure g of F, is read with g's body in place of the calls: the callback parameter goes, the locals of F that
+    g closes over become (keyword-only) parameters of H and are handed over by the call sites.  (A wait helper that reports every finished
+    node through `on_finished(node_id)` is then read as pruning the graph and feeding the runnable set itself.)"""
+    done: List[str] = []
+    mod_funcs: Dict[str, Tuple[str, ast.AST]] = {}
+    for mod, t in trees.items():
+        for st in t.body:
+            if isinstance(st, FuncDef):
+                mod_funcs.setdefault(st.name, (mod, st))
+    for hname, (hmod, H) in list(mod_funcs.items()):
+        a = H.args
+        if a.vararg or a.kwarg:
+            continue
+        params = [x.arg for x in a.posonlyargs + a.args + a.kwonlyargs]
+        for cb in params:
+            uses = [n for n in ast.walk(H) if isinstance(n, ast.Name) and n.id == cb]
+            parents: Dict[int, ast.AST] = {}
+            for n in ast.walk(H):
+                for c in ast.iter_child_nodes(n):
+                    parents[id(c)] = n
+            cb_calls = [parents.get(id(u)) for u in uses]
+            if not uses or not all(isinstance(c, ast.Call) and c.func is u and not c.keywords and all(isinstance(x, ast.Name) for x in c.args)
+                                   and isinstance(parents.get(id(c)), ast.Expr) for c, u in zip(cb_calls, uses)):
+                continue
+            # call sites
+            sites = []
+            for mod, t in trees.items():
+                for F in [n for n in ast.walk(t) if isinstance(n, FuncDef)]:
+                    for c in _own_nodes(F):
+                        if isinstance(c, ast.Call) and ((isinstance(c.func, ast.Name) and c.func.id == hname)
+                                                        or (isinstance(c.func, ast.Attribute) and c.func.attr == hname and isinstance(c.func.value, ast.Name))):
+                            sites.append((F, c))
+            if not sites or len({id(F) for F, _ in sites}) != 1:
+                continue
+            F = sites[0][0]
+            pos = [x.arg for x in a.posonlyargs + a.args]
+
+            def arg_of(c: ast.Call):
+                for k in c.keywords:
+                    if k.arg == cb:
+                        return k.value
+                if cb in pos and pos.index(cb) < len(c.args):
+                    return c.args[pos.index(cb)]
+                return None
+            gs = [arg_of(c) for _, c in sites]
+            if not all(isinstance(g_, ast.Name) for g_ in gs) or len({g_.id for g_ in gs}) != 1:
+                continue
+            gname = gs[0].id
+            gdefs = [n for n in F.body if isinstance(n, FuncDef) and n.name == gname]
+            if len(gdefs) != 1:
+                continue
+            g = gdefs[0]
+            ga = g.args
+            if isinstance(g, ast.AsyncFunctionDef) or ga.vararg or ga.kwarg or ga.kwonlyargs or ga.defaults or g.decorator_list:
+                continue
+            gparams = [x.arg for x in ga.posonlyargs + ga.args]
+            gbody = _body_wo_doc(g)
+            if any(isinstance(x, (ast.Return, ast.Yield, ast.YieldFrom, ast.Await, ast.Nonlocal, ast.Global) + FuncDef + (ast.Lambda,)) for st in gbody for x in ast.walk(st)):
+                continue
+            if not all(len(c.args) == len(gparams) for c in cb_calls):
+                continue
+            glocals = {x.id for st in gbody for x in ast.walk(st) if isinstance(x, ast.Name) and isinstance(x.ctx, ast.Store)}
+            f_locals = {x.arg for x in F.args.posonlyargs + F.args.args + F.args.kwonlyargs} | {
+                x.id for x in _own_nodes(F) if isinstance(x, ast.Name) and isinstance(x.ctx, ast.Store)}
+            free = sorted({x.id for st in gbody for x in ast.walk(st) if isinstance(x, ast.Name) and isinstance(x.ctx, ast.Load)
+                           and x.id not in gparams and x.id not in glocals and x.id in f_locals})
+            h_names = {x.id for x in ast.walk(H) if isinstance(x, ast.Name)} | set(params)
+            if not free or (set(free) | glocals) & (h_names - {cb}):
+                continue
+            # annotations of the new parameters: taken from F where it states them, else inferred from the methods used on the name
+            ann: Dict[str, Optional[ast.AST]] = {}
+            for v in free:
+                an = next((x.annotation for x in F.args.posonlyargs + F.args.args + F.args.kwonlyargs if x.arg == v and x.annotation is not None), None)
+                if an is None:
+                    an = next((x.annotation for x in _own_nodes(F) if isinstance(x, ast.AnnAssign) and isinstance(x.target, ast.Name) and x.target.id == v), None)
+                if an is None:
+                    meths = {x.func.attr for x in ast.walk(F) if isinstance(x, ast.Call) and isinstance(x.func, ast.Attribute)
+                             and isinstance(x.func.value, ast.Name) and x.func.value.id == v}
+                    if "update" in meths and meths & {"remove", "add", "discard"} and not (meths - {"update", "remove", "add", "discard", "copy", "union", "difference", "pop"}):
+                        an = ast.Subscript(value=ast.Name(id="Set", ctx=ast.Load()), slice=ast.Name(id="Any", ctx=ast.Load()), ctx=ast.Load())
+                ann[v] = copy.deepcopy(an) if an is not None else None
+            # 1. H: the calls of the callback become g's body
+            def expand(stmts: List[ast.stmt]) -> List[ast.stmt]:
+                out: List[ast.stmt] = []
+                for st in stmts:
+                    if isinstance(st, ast.Expr) and any(st.value is c for c in cb_calls):
+                        bind = {p_: copy.deepcopy(x) for p_, x in zip(gparams, st.value.args)}
+                        ren = {l_: f"__{gname}__{l_}" for l_ in glocals}
+                        for b in gbody:
+                            nb = _Subst(bind, ren).visit(copy.deepcopy(b))
+                            ast.copy_location(nb, st)
+                            out.append(nb)
+                        continue
+                    for fld in ("body", "orelse", "finalbody"):
+                        v_ = getattr(st, fld, None)
+                        if isinstance(v_, list) and v_ and isinstance(v_[0], ast.stmt) and not isinstance(st, FuncDef + (ast.ClassDef,)):
+                            setattr(st, fld, expand(v_))
+                    if isinstance(st, ast.Try):
+                        for hd in st.handlers:
+                            hd.body = expand(hd.body)
+                    out.append(st)
+                return out
+            H.body = expand(H.body)
+            for lst in (a.posonlyargs, a.args):
+                lst[:] = [x for x in lst if x.arg != cb]
+            if cb in [x.arg for x in a.kwonlyargs]:
+                i_ = [x.arg for x in a.kwonlyargs].index(cb)
+                del a.kwonlyargs[i_]
+                del a.kw_defaults[i_]
+            # defaults belong to the last positional parameters: the callback had none (checked: every site passes it)
+            for v in free:
+                a.kwonlyargs.append(ast.arg(arg=v, annotation=ann[v]))
+                a.kw_defaults.append(None)
+            # 2. the call sites hand over the captured locals instead of the procedure
+            for _, c in sites:
+                if cb in pos and pos.index(cb) < len(c.args):
+                    del c.args[pos.index(cb)]
+                c.keywords = [k for k in c.keywords if k.arg != cb] + [ast.keyword(arg=v, value=ast.Name(id=v, ctx=ast.Load())) for v in free]
+            ast.fix_missing_locations(trees[hmod])
+            for t in trees.values():
+                ast.fix_missing_locations(t)
+            done.append(f"{hname}({cb}={gname})")
+            break
+    return done
+
+
 def inline_new_helpers(trees: Dict[str, ast.Module], known: Set[str]) -> List[str]:
     expanded: List[str] = []
     for _round in range(4):
